@@ -842,6 +842,8 @@ Definition revoke (h : hub) (sid : N) : hub * list out :=
 Definition resolve_rs (h : hub) (i : idref) : option N :=
   match i with
   | IdRS n => aget h.(h_rs2) (1000000 + n)
+  (* a session that joined without a Nextcloud session id is in the map under its own public id *)
+  | IdPub n => aget h.(h_rs2) (2000000 + n)
   | _ => None
   end.
 
